@@ -36,6 +36,9 @@ CONSTANTS CoreB <- CoreB%(t)s
  BigOps <- Big%(t)s
  Tier = "%(tier)s"
 """
+# SetToSeq folds recursively over sets of 10^4..10^5 records: the default thread stack is borderline
+# (an occasional StackOverflowError was seen); run_tlc puts this string after -Xmx
+ENUM_JVM = "8g -Xss512m"
 JUDGE_CFG = "SPECIFICATION Spec\nINVARIANT Verdict\n"
 MCBIG_CFG = "INIT Init\nNEXT Next\nINVARIANT NativeOK\nINVARIANT BigOK\nCONSTANT Tier = \"%s\"\n"
 # Limits of one library call.  The decisive one is CPU time of the process (a mutant that loops burns
@@ -462,7 +465,7 @@ def run(ctx):
     d = ctx.sub("enum")
     f = {k: os.path.join(d, k.lower() + ".ndjson") for k in ("OUT", "PROB", "POOL", "BIG")}
     res = tlc.run_tlc(
-        "SimplifyEnum", ENUM_CFG % {"t": "Quick" if q else "Thorough", "tier": ctx.tier}, d, env=f, workers=1, timeout=3000
+        "SimplifyEnum", ENUM_CFG % {"t": "Quick" if q else "Thorough", "tier": ctx.tier}, d, env=f, workers=1, timeout=3000, heap=ENUM_JVM
     )
     if res.error:
         raise MachineryError(res.error)
@@ -537,7 +540,7 @@ def run(ctx):
 def selftest(ctx):
     d = ctx.sub("enum")
     f = {k: os.path.join(d, k.lower() + ".ndjson") for k in ("OUT", "PROB", "POOL", "BIG")}
-    res = tlc.run_tlc("SimplifyEnum", ENUM_CFG % {"t": "Quick", "tier": "quick"}, d, env=f, workers=1, timeout=3000)
+    res = tlc.run_tlc("SimplifyEnum", ENUM_CFG % {"t": "Quick", "tier": "quick"}, d, env=f, workers=1, timeout=3000, heap=ENUM_JVM)
     if res.error:
         raise MachineryError(res.error)
     Pj = tlc.read_ndjson(f["PROB"])[0]["P"]
